@@ -29,8 +29,8 @@ from vp.scen import rods as R
 ID = "C11"
 LEVEL = "model_checking"
 RULE = (
-    "complete product of rod formulations (as C10) x states (quick: 3 = reference, deformed-unit o generic motion, "
-    "deformed-nonunit o half turn; thorough: 3 bases x 4 motions) x all coordinate directions for every System-level "
+    "complete product of rod formulations (as C10; thorough: nel=3 only on two references) x states (quick: 3 = reference, deformed-unit o generic motion, "
+    "deformed-nonunit o half turn; thorough: 8 = reference x {id, quarter turn}, deformed-unit x {id, generic motion, half turn}, deformed-nonunit x {id, generic motion, quarter turn}) x all coordinate directions for every System-level "
     "Jacobian; x cross-section parameters xi in {0,.1,.25,1/3,.5,.77,1} U all nodal parameters x offset for the "
     "element-level Jacobians; nodal-value, rotation, mass-matrix, kinetic-energy and gyroscopic-power oracles at all "
     "of these.  A case is non-trivial if at least 5 compared Jacobian blocks have a non-zero reference derivative"
@@ -71,11 +71,14 @@ def _states(rod, Q, tier, seed):
             ("deformed_unit", gm[0], R.rigid_motion(rod, bases[1][1], gm[1], gm[2])),
             ("deformed_nonunit", ht[0], R.rigid_motion(rod, bases[2][1], ht[1], ht[2])),
         ]
+    plan = {"reference": (None, qt), "deformed_unit": (None, gm, ht), "deformed_nonunit": (None, gm, qt)}
     out = []
     for bname, q in bases:
-        out.append((bname, "id", q))
-        for m in (gm, qt, ht):
-            out.append((bname, m[0], R.rigid_motion(rod, q, m[1], m[2])))
+        for m in plan[bname]:
+            if m is None:
+                out.append((bname, "id", q))
+            else:
+                out.append((bname, m[0], R.rigid_motion(rod, q, m[1], m[2])))
     return out
 
 
